@@ -223,8 +223,10 @@ for kind, qual in (("disk", "disk_io_counters"), ("net", "net_io_counters")):
             "forall(list(raw), lambda d: forall(range(width), lambda i: result[d][i] == raw[d][i])))",
             # nowrap=True: the figures come from the wrap-around filter, asked once, under this function's own cache name,
             # with the raw per-device dict; nowrap=False: the raw figures, the filter is not consulted
-            "implies(k > 0 and nowrap, log == [('wrap', cache_name, True)])",
-            "implies(k == 0 or not nowrap, len(log) == 0)",
+            # (also for an empty snapshot: the history must learn that every device went away, or a device that comes back
+            # with a lower counter is taken for a wrap instead of starting afresh)
+            "implies(nowrap, log == [('wrap', cache_name, True)])",
+            "implies(not nowrap, len(log) == 0)",
         ],
         raises={}, canaries=["result == 5"], replay=None,
         note="system-wide form = field-wise sum over the devices; None / {} when nothing is listed"))
